@@ -106,6 +106,13 @@ def _bvp_case(arg):
     boundary = None if boundary_kind == "none" else float(1.0 * np.sqrt(4 * np.pi))
     snap = rho.copy()
     res.count()
+    if not include_origin and tfkind == "laguerre":
+        # without the added r = 0 node the lower boundary condition sits on the first radial node r_0 and leaves an
+        # error ~ V(0) r_0 / r (documented as the caller's responsibility): GaussLaguerre(100) has r_0 = 0.0144, so
+        # no evaluation point closer than 16 bohr could be held to the tolerance.  (False alarm of the thorough tier,
+        # corrected: the Becke grids have r_0 < 1e-4.)
+        res.inadm()
+        return res.as_dict()
     np.random.seed(seed)
     try:
         with warnings.catch_warnings():
@@ -340,7 +347,10 @@ def _robust2_case(arg):
 
 
 def _mol_case(arg):
-    dist, seed = arg
+    dist, seed = arg[:2]
+    # the documented accuracy knob of the radial boundary-value solves; with the default 1e-6 the solver gives up
+    # ("didn't converge") on the far atom's density of a stretched molecule -- an explicit refusal, not an answer
+    tol = arg[2] if len(arg) > 2 else None
     from grid.atomgrid import AtomGrid
     from grid.becke import BeckeWeights
     from grid.molgrid import MolGrid
@@ -349,7 +359,7 @@ def _mol_case(arg):
     from grid.rtransform import BeckeRTransform, InverseRTransform
 
     res = WorkerResult(section="molecular")
-    case = {"route": "molecular", "distance": dist}
+    case = {"route": "molecular", "distance": dist, "tol": tol}
     with warnings.catch_warnings():
         warnings.simplefilter("ignore")
         btf = BeckeRTransform(0.0, 1.5)
@@ -363,7 +373,8 @@ def _mol_case(arg):
         try:
             with np.errstate(all="ignore"):
                 np.random.seed(seed)
-                got = np.asarray(solve_poisson_bvp(mg, rho, InverseRTransform(btf))(q), dtype=float)
+                opt = {} if tol is None else {"ode_params": {"tol": tol}}
+                got = np.asarray(solve_poisson_bvp(mg, rho, InverseRTransform(btf), **opt)(q), dtype=float)
         except Exception as exc:
             res.violation(f"molecular:raised:{type(exc).__name__}", f"{case}: {exc}", case)
             return res.as_dict()
@@ -411,8 +422,9 @@ def run(ctx):
     for z in (1, 8):
         for split2 in (False, True):
             jobs.append(("rob", ("core+smooth", z, split2, ctx.seed)))
+    jobs += [("mol", (10.0, ctx.seed, 1e-3)), ("mol", (4.0, ctx.seed, 1e-3))]
     if ctx.thorough:
-        jobs += [("mol", (10.0, ctx.seed)), ("mol", (1.4, ctx.seed))]
+        jobs += [("mol", (1.4, ctx.seed)), ("mol", (1.4, ctx.seed, 1e-3)), ("mol", (2.5, ctx.seed, 1e-3))]
     jobs.sort(key=lambda j: {"mol": 0, "bvp": 1 if j[1][0] == 15 else 3, "lin": 1, "ivp": 2, "lap": 3, "rob": 4, "rob2": 2}[j[0]])
     for res in lattice.pmap_unordered(_dispatch, jobs, ctx.workers):
         if len(ctx.samples) > 8:
@@ -444,4 +456,4 @@ def replay(ctx, case):
     elif r == "robust":
         ctx.merge(_robust_case((case["kind"], case["z"], case["split2"], ctx.seed)))
     else:
-        ctx.merge(_mol_case((case["distance"], ctx.seed)))
+        ctx.merge(_mol_case((case["distance"], ctx.seed, case.get("tol"))))
